@@ -31,6 +31,13 @@ mod gossip;
 mod live;
 mod state;
 
+#[cfg(feature = "verif")]
+pub mod verif {
+    //! Verification hooks.
+    pub use super::live::{LiveActor, ToLiveActor, VerifDial};
+    pub use super::state::{Origin, SyncReason, VerifPeerState};
+}
+
 /// Capacity of the channel for the [`ToLiveActor`] messages.
 const ACTOR_CHANNEL_CAP: usize = 64;
 /// Capacity for the channels for [`Engine::subscribe`].
